@@ -1,3 +1,8 @@
 import XProofs.Properties.C08
 #print axioms Properties.C08.C08_pattern_plain
 #print axioms Properties.C08.C08_mask_rows_from_indices
+#print axioms Properties.C08.C08_pattern_plain_spec
+#print axioms Properties.C08.C08_mask_selector
+#print axioms Properties.C08.C08_value_range
+#print axioms Properties.C08.C08_value_range_is
+#print axioms Properties.C08.C08_compose
